@@ -264,7 +264,7 @@ def gen_ops(rng, tier):
         maxn, maxdfa = 4, 4  # swarm: a few histories on the next size up
     names = ["a", "b", "prop_x"][: rng.choice([1, 2, 2, 3])]
     perms = [common.rand_perm(rng, rng.choice([0, 1, 2, 2, 3, 3, 3, 4][: 5 + maxdfa])) for _ in range(rng.choice([1, 2, 3]))]
-    nops = rng.randint(3, 12)
+    nops = rng.randint(3, 12) if rng.random() >= 0.03 else rng.randint(25, 60)  # swarm: a few long histories
     ops = []
     written = []
     for _ in range(nops):
